@@ -14,6 +14,7 @@ import KyupyVerif.Drv.WaveStrip
 import KyupyVerif.Drv.Grid
 import KyupyVerif.Drv.WaveIO
 import KyupyVerif.Drv.Cycle
+import KyupyVerif.Drv.CircNet
 /-! Stateless driver extensions: each module `KyupyVerif/Drv/<Name>.lean` defines
 `handle : String → List String → Option String` (command word, remaining tokens → answer, or `none`
 when the command is not its own) and is listed in `extHandlers` below. -/
@@ -35,7 +36,8 @@ def extHandlers : List (String → List String → Option String) := [
   KV.Drv.WaveStrip.handle,
   KV.Drv.Grid.handle,
   KV.Drv.WaveIO.handle,
-  KV.Drv.Cycle.handle
+  KV.Drv.Cycle.handle,
+  KV.Drv.CircNet.handle
 ]
 
 def tryExt (cmd : String) (args : List String) : Option String :=
